@@ -48,7 +48,14 @@ def make(*targets, opt=None):
     if opt:
         cmd.append("OPT=" + opt)
     cmd += list(targets)
-    rc, out, dt = sh(cmd, timeout=3000)
+    # checks may be started side by side: builds into the shared build directory are serialised
+    import fcntl
+    with open(os.path.join(BUILD, ".make.lock"), "w") as lk:
+        fcntl.flock(lk, fcntl.LOCK_EX)
+        try:
+            rc, out, dt = sh(cmd, timeout=3000)
+        finally:
+            fcntl.flock(lk, fcntl.LOCK_UN)
     if rc != 0:
         raise ToolError("harness build failed (rc=%d):\n%s" % (rc, out[-6000:]))
     return dt
